@@ -1321,12 +1321,20 @@ def pattern_instances(rng, name, n=3):
     return sorted({c for c in out if c != name})
 
 
+FOREIGN_KIND = "hostile"     # -> "other" once fixes/R5C-foreign-file-in-report-dir-crashes-load.diff is in /repo (the only line to change)
 DIR_EXTRAS = {          # other legitimate content of a report directory; none of it is a report
     "attachments": "subdir", "report.html": "other", "notes.txt": "other", ".lock": "other", "report.js.4242.tmp": "other",
     "empty": "other", "screenshots": "subdir",
+    # files on which a backend raises something else than ReportLoadingError (open finding
+    # C09/roundtrip/directory-load-crashes-on-foreign-file; after fixes/R5C-foreign-file-in-report-dir-crashes-load.diff: kind "other")
+    "run.pid": FOREIGN_KIND, "core": FOREIGN_KIND,
 }
+HOSTILE_EXTRAS = ["core", "run.pid"]
+BENIGN_EXTRAS = sorted(k for k in DIR_EXTRAS if k not in HOSTILE_EXTRAS)
 _EXTRA_TEXT = {"report.html": "<html><body><script src='report.js'></script></body></html>\n", "notes.txt": "see ticket 1234\n", ".lock": "pid 4242\n",
-               "report.js.4242.tmp": 'var reporting_data = {"title": "cut in the mid', "empty": ""}
+               "report.js.4242.tmp": 'var reporting_data = {"title": "cut in the mid', "empty": "",
+               "run.pid": "4242\n",                    # a pid / counter file: its text is a JSON document (a number)
+               "core": b"\x7fELF\xff\xfe\x00\x80"}     # not UTF-8 text
 
 
 def other_filesystem(base):
@@ -1379,7 +1387,7 @@ class DirStream(_SaveLoad):
         dirname = rng.choice(names) if rng.random() < 0.8 else "report"
         opts, _ = gen_json_opts(rng)
         return {"report": d, "older": older, "dirname": dirname, "siblings": pattern_instances(rng, dirname),
-                "extras": sorted(rng.sample(sorted(DIR_EXTRAS), rng.choice([0, 0, 1, 2, 4]))),
+                "extras": sorted(rng.sample(BENIGN_EXTRAS, rng.choice([0, 0, 1, 2, 4])) + (rng.sample(HOSTILE_EXTRAS, 1) if rng.random() < 0.06 else [])),
                 "backend": rng.choice(["json", "json", "xml"]), "opts": opts, "how": rng.choice(["backend", "backend", "report.save"]),
                 "via": rng.choice(["load_report", "load_report", "load_report/", "load_reports_from_dir"]),
                 "tmp": rng.choice(["default", "other-fs", "other-fs", "elsewhere"]), "place": rng.choice(["default", "default", "other-fs"])}
@@ -1412,7 +1420,7 @@ class DirStream(_SaveLoad):
                 if DIR_EXTRAS[x] == "subdir":
                     os.mkdir(os.path.join(target, x))
                 else:
-                    with open(os.path.join(target, x), "w") as fh:
+                    with open(os.path.join(target, x), "wb" if isinstance(_EXTRA_TEXT[x], bytes) else "w") as fh:
                         fh.write(_EXTRA_TEXT[x])
             out["before"] = sorted(os.listdir(target))
             out["dev"] = {"report": os.stat(target).st_dev, "tmp": os.stat(tmpd).st_dev if tmpd else os.stat(tempfile.gettempdir()).st_dev}
@@ -1458,6 +1466,8 @@ class DirStream(_SaveLoad):
                     out["load"]["none_text"] = none_text_positions(out["load"]["report"])
             except ReportLoadingError as e:
                 out["load"] = {"outcome": "no-report", "message": str(e)[:60]}
+            except (AttributeError, UnicodeDecodeError, TypeError, KeyError, ValueError) as e:
+                out["load"] = {"outcome": "crash", "class": type(e).__name__}
         finally:
             shutil.rmtree(top, ignore_errors=True)
             if tmpd:
@@ -1486,6 +1496,12 @@ class DirStream(_SaveLoad):
         if o["save"] != "saved":
             return fails
         ld = o["load"]
+        if ld["outcome"] == "crash":
+            hostile = [x for x in case.get("extras", []) if DIR_EXTRAS[x] == "hostile"]
+            fails.append(C.Failure("C09/roundtrip/directory-load-crashes-on-foreign-file" if hostile else "C09/roundtrip/directory-load-raises-" + ld["class"],
+                                   "%s: %s raised %s although %s was saved there intact (other entries: %s)"
+                                   % (where, case.get("via"), ld["class"], o["fname"], case.get("extras"))))
+            return fails
         if ld["outcome"] == "no-report":
             fails.append(C.Failure("C09/roundtrip/report-not-found-in-its-directory",
                                    "%s: the report saved as %s is not found by %s: %s" % (where, o["fname"], case.get("via"), ld.get("message"))))
@@ -1512,7 +1528,7 @@ class DirStream(_SaveLoad):
         if o["save"] == "saved" and o["load"]["outcome"] == "ok":
             g = o["load"]["report"]["saving"] or 0
         # the real code creates its temporary file BESIDE the target, wherever $TMPDIR is
-        return {"op": "dir", "target": case["dirname"], "tmp": "beside", "dirs": dirs,
+        return {"op": "dir", "target": case["dirname"], "tmp": "beside", "dirs": dirs, "order": o["listing"],
                 "save": dict({"file": o["fname"], "fmt": case["backend"], "g": g, "report": R.wire(merge_pairs_deep(R.strip_private(case["report"])))},
                              **case["opts"])}
 
@@ -1528,6 +1544,16 @@ class DirStream(_SaveLoad):
         if real_save != "saved":
             return None
         m, ld = ans["load"], o["load"]
+        if case.get("via") == "load_reports_from_dir":
+            # the list form consumes the whole generator
+            if (ld["outcome"] == "crash") != (ans["count"] == "crashed"):
+                return "listing the directory: real %s, model count %s" % (ld["outcome"], ans["count"])
+            if ld["outcome"] == "crash":
+                return None
+        elif (ld["outcome"] == "crash") != (m["o"] == "crashed"):
+            return "real load: %s; model: %s" % (ld["outcome"], m["o"])
+        elif ld["outcome"] == "crash":
+            return None
         if ld["outcome"] == "no-report":
             return None if m["o"] == "no-report" else "real: no report found in the directory; model: %s" % m["o"]
         if ld.get("none_text") and m["o"] != "loaded":
@@ -1667,6 +1693,8 @@ DirStream.corpus = [
     # $TMPDIR on another file system than the report directory, and the other way round (seeded C09-11)
     _dircase("report", [], tmp="other-fs"), _dircase("report", [], backend="xml", tmp="other-fs"),
     _dircase("report", [], tmp="other-fs", place="other-fs"), _dircase("report", [], tmp="elsewhere"),
+    # open finding: a pid file / a binary file beside the report makes the directory load raise
+    _dircase("report", [], via="load_reports_from_dir", extras=["run.pid"]), _dircase("report", [], via="load_reports_from_dir", extras=["core"], backend="xml"),
 ]
 
 
